@@ -833,14 +833,17 @@ Definition idle_reset (s : src) : Prop :=
   s_state s = ST_IDLE /\ s_step s = SS_IDLE /\ s_p s = reset_sparams /\ s_queue s = [] /\ s_ready s = 0.
 
 (* the one fault callback a sender call delivers, [new] being the events of the call so far (newest first), q0 / r0 the
-   queue and the ready counter at the start: it is the newest event; it carries the transaction id t; either its kind is
+   queue and the ready counter at the start: it is the newest event, unless its kind is IGNORE: then the procedure that
+   declared the fault carries on (F34 repair: a re-sent EOF with its EOF-Sent indication may follow); it carries the
+   transaction id t; either its kind is
    what the table gives for its condition (ABANDON: handler idle, parameters reset, queue cleared, counter zero; CANCEL:
    an EOF PDU with that condition was queued in the call and nothing was dropped) or it is the abandonment of a transaction
    whose EOF (cancel) exchange was already running with that condition (ce0: the EOF condition at the start) *)
 Definition src_fault_last (c : lcfg) (t : option (Z * Z)) (ce0 : option Z) (q0 : list pdu) (r0 : Z)
            (new : list event) (s' : src) : Prop :=
-  exists k a b cond pr older,
-    new = EvFault k a b cond pr :: older /\ no_fault older /\ t = Some (a, b) /\
+  exists k a b cond pr newer older,
+    new = newer ++ EvFault k a b cond pr :: older /\ no_fault newer /\ (k <> FH_IGNORE -> newer = []) /\
+    no_fault older /\ t = Some (a, b) /\
     ((get_fault_handler (l_faults c) cond = Some k /\
       (k = FH_ABANDON -> idle_reset s') /\
       (k <> FH_ABANDON -> exists added, s_queue s' = q0 ++ added /\ s_ready s' = r0 + zlen added /\
@@ -967,39 +970,50 @@ Section SrcFault.
        \/ src_fault_last c t ce0 (s_queue s) (s_ready s) new (fst x)).
 
   (* after the declaration the step is the old one, or that of the EOF (cancel) exchange, or idle *)
-  Definition decl_out (s : src) (x : src * res Z unit) : Prop :=
+  (* what the declaration of an ignored fault leaves: everything but the log *)
+  Definition ign_out (cond : Z) (s : src) (new : list event) (s' : src) : Prop :=
+    fault_ignored c cond = true ->
+    IsT c t ce0 s' /\ s_queue s' = s_queue s /\ s_ready s' = s_ready s /\ s_step s' = s_step s /\
+    exists a b pr, new = [EvFault FH_IGNORE a b cond pr] /\ t = Some (a, b) /\
+                   get_fault_handler (l_faults c) cond = Some FH_IGNORE.
+
+  Definition decl_out (cond : Z) (s : src) (x : src * res Z unit) : Prop :=
     exists new, log_s (fst x) = new ++ log_s s /\ s_cfg (fst x) = c /\
       ((no_fault new /\ snd x <> Ok tt /\
         exists added, s_queue (fst x) = s_queue s ++ added /\ s_ready (fst x) = s_ready s + zlen added)
-       \/ (src_fault_last c t ce0 (s_queue s) (s_ready s) new (fst x) /\
-           (s_step (fst x) = s_step s \/ s_step (fst x) = SS_WAITING_FOR_EOF_ACK \/ s_step (fst x) = SS_IDLE))).
+       \/ (src_fault_last c t ce0 (s_queue s) (s_ready s) new (fst x) /\ snd x = Ok tt /\
+           (s_step (fst x) = s_step s \/ s_step (fst x) = SS_WAITING_FOR_EOF_ACK \/ s_step (fst x) = SS_IDLE) /\
+           ign_out cond s new (fst x))).
 
-  Lemma declare_fault_s_spec : forall cond s, IsT c t ce0 s -> decl_out s (declare_fault_s cond s).
+  Lemma declare_fault_s_spec : forall cond s, IsT c t ce0 s -> decl_out cond s (declare_fault_s cond s).
   Proof.
     intros cond s HI. pose proof HI as [Hc [Ht Hce]].
     unfold declare_fault_s. unfold bind at 1, gets at 1. rewrite Hc.
     unfold bind at 1, gq at 1, gets at 1. unfold bind at 1, gq at 1, gets at 1.
-    assert (Hq : forall (e : Z), decl_out s (s, Err e)).
+    assert (Hq : forall (e : Z), decl_out cond s (s, Err e)).
     { intro e. exists []. split; [reflexivity|]. split; [exact Hc|]. left. split; [reflexivity|]. split; [discriminate|].
       exists []. split; [symmetry; apply app_nil_r | cbn; lia]. }
     destruct (q_tid (s_p s)) as [[a b]|] eqn:Eq; [|apply Hq]. symmetry in Ht.
     destruct (get_fault_handler (l_faults c) cond) as [h|] eqn:F; [|apply Hq].
+    assert (FI : fault_ignored c cond = (h =? FH_IGNORE)) by (unfold fault_ignored; rewrite F; reflexivity).
     destruct (h =? FH_CANCEL) eqn:E1.
     - apply Z.eqb_eq in E1. subst h.
       unfold bind at 1. pose proof (noc_spec cond s HI) as N.
       destruct (notice_of_cancellation_s cond s) as [s1 r]. destruct N as [new [L1 [C1 N]]]. cbn [fst snd] in *.
       destruct N as [[R [a' [b' [c0 [pr [T1 [N1 [N2 [N3 N4]]]]]]]]]|[R [N1 [added [Q1 [Q2 Q3]]]]]].
       + subst r. cbn [negb]. unfold ret. exists new. cbn [fst snd]. split; [exact L1|]. split; [exact C1|].
-        right. split; [|right; right; apply N4].
-        exists FH_ABANDON, a', b', c0, pr, []. split; [exact N1|]. split; [reflexivity|]. split; [exact T1|].
+        right. split; [|split; [reflexivity|]; split; [right; right; apply N4 | intro X; rewrite FI in X; compute in X; discriminate X]].
+        exists FH_ABANDON, a', b', c0, pr, [], []. split; [exact N1|]. split; [reflexivity|]. split; [reflexivity|].
+        split; [reflexivity|]. split; [exact T1|].
         right. split; [reflexivity|]. split; [exact N2|]. split; [exact N3 | exact N4].
       + destruct r as [[|]|e].
         * cbn [negb]. unfold semit, modify. cbn [fst snd].
           exists (EvFault FH_CANCEL a b cond (q_progress (s_p s)) :: new). cbn [fst snd].
           split; [cbn; unfold log_s in *; cbn; rewrite L1; reflexivity|]. split; [exact C1|].
           destruct (Q3 eq_refl) as [[hh [ck [fsz Hin]]] Hstep].
-          right. split; [|right; exact Hstep].
-          exists FH_CANCEL, a, b, cond, (q_progress (s_p s)), new. split; [reflexivity|]. split; [exact N1|]. split; [exact Ht|].
+          right. split; [|split; [reflexivity|]; split; [right; exact Hstep | intro X; rewrite FI in X; compute in X; discriminate X]].
+          exists FH_CANCEL, a, b, cond, (q_progress (s_p s)), [], new. split; [reflexivity|]. split; [reflexivity|].
+          split; [reflexivity|]. split; [exact N1|]. split; [exact Ht|].
           left. split; [exact F|]. split; [intro X; discriminate X|]. intros _.
           exists added. split; [exact Q1|]. split; [exact Q2|]. intros _. exists hh, ck, fsz. exact Hin.
         * exfalso. apply R. reflexivity.
@@ -1009,13 +1023,19 @@ Section SrcFault.
       + apply Z.eqb_eq in E2. subst h.
         unfold sreset_internal, semit, modify, bind, ret. cbn [fst snd negb].
         exists [EvFault FH_ABANDON a b cond (q_progress (s_p s))]. cbn [fst snd]. split; [reflexivity|]. split; [exact Hc|].
-        right. split; [|right; right; reflexivity].
-        exists FH_ABANDON, a, b, cond, (q_progress (s_p s)), []. split; [reflexivity|]. split; [reflexivity|]. split; [exact Ht|].
+        right. split; [|split; [reflexivity|]; split; [right; right; reflexivity | intro X; rewrite FI in X; compute in X; discriminate X]].
+        exists FH_ABANDON, a, b, cond, (q_progress (s_p s)), [], []. split; [reflexivity|]. split; [reflexivity|].
+        split; [reflexivity|]. split; [reflexivity|]. split; [exact Ht|].
         left. split; [exact F|]. split; [intros _; repeat split; reflexivity|]. intro X; contradiction X; reflexivity.
       + unfold semit, modify, bind, ret. cbn [fst snd negb].
         exists [EvFault h a b cond (q_progress (s_p s))]. cbn [fst snd]. split; [reflexivity|]. split; [exact Hc|].
-        right. split; [|left; reflexivity].
-        exists h, a, b, cond, (q_progress (s_p s)), []. split; [reflexivity|]. split; [reflexivity|]. split; [exact Ht|].
+        right. split; [|split; [reflexivity|]; split; [left; reflexivity|]].
+        2: { intro X. rewrite FI in X. apply Z.eqb_eq in X. subst h.
+             split; [split; [exact Hc | split; [rewrite Ht; exact Eq | exact Hce]]|].
+             split; [reflexivity|]. split; [reflexivity|]. split; [reflexivity|].
+             exists a, b, (q_progress (s_p s)). split; [reflexivity|]. split; [exact Ht | exact F]. }
+        exists h, a, b, cond, (q_progress (s_p s)), [], []. split; [reflexivity|]. split; [reflexivity|].
+        split; [reflexivity|]. split; [reflexivity|]. split; [exact Ht|].
         left. split; [exact F|]. split; [intro X; subst h; discriminate E2|]. intros _.
         exists []. split; [symmetry; apply app_nil_r|]. split; [cbn; lia|]. intro X; subst h; discriminate E1.
   Qed.
@@ -1051,10 +1071,11 @@ Section SrcCall.
   Proof.
     intros s s1 x n1 a1 [E1 [E2 [E3 E4]]] [new [L [C D]]]. exists (new ++ n1).
     split; [rewrite L, E1; apply app_assoc|]. split; [exact C|].
-    destruct D as [[N [added [Q1 Q2]]]|[k [a [b [cond [pr [older [F1 [F2 [F3 F4]]]]]]]]]].
+    destruct D as [[N [added [Q1 Q2]]]|[k [a [b [cond [pr [newer [older [F1 [Fn [Fi [F2 [F3 F4]]]]]]]]]]]]].
     - left. split; [apply no_fault_app; assumption|]. exists (a1 ++ added).
       split; [rewrite Q1, E2; symmetry; apply app_assoc | rewrite Q2, E3, ft_zlen_app; lia].
-    - right. exists k, a, b, cond, pr, (older ++ n1). split; [rewrite F1; reflexivity|].
+    - right. exists k, a, b, cond, pr, newer, (older ++ n1). split; [rewrite F1, <- app_assoc; reflexivity|].
+      split; [exact Fn|]. split; [exact Fi|].
       split; [apply no_fault_app; assumption|]. split; [exact F3|].
       destruct F4 as [[T1 [T2 T3]]|T]; [|right; exact T].
       left. split; [exact T1|]. split; [exact T2|]. intro Hk. destruct (T3 Hk) as [added [Q1 [Q2 Q3]]].
@@ -1095,15 +1116,29 @@ Section SrcCall.
     split; [apply I1 | intros _; exact I1].
   Qed.
 
-  Lemma mid_decl (S_ok : Z -> Prop) cond s :
-    IT s -> (forall st, st = s_step s \/ st = SS_WAITING_FOR_EOF_ACK \/ st = SS_IDLE -> S_ok st) ->
-    mid_out S_ok s (declare_fault_s cond s).
+  (* a limit fault is declared; if its handler is IGNORE the procedure [K] carries on (F34 repair) *)
+  Lemma decl_then (S_ok : Z -> Prop) cond (K : SM unit) s :
+    IT s -> GT K -> MInv s_step Any K ->
+    (forall st, st = s_step s \/ st = SS_WAITING_FOR_EOF_ACK \/ st = SS_IDLE -> S_ok st) ->
+    mid_out S_ok s ((declare_fault_s cond ;;; l <- gets s_cfg ;; if fault_ignored l cond then K else ret tt) s).
   Proof.
-    intros HI HS. destruct (declare_fault_s_spec c t ce0 cond s HI) as [new [L [C D]]].
-    destruct D as [[N [R [added [Q1 Q2]]]]|[F St]].
-    - left. exists new, added. split; [split; [exact L | split; [exact Q1 | split; [exact Q2 | exact N]]]|].
-      split; [exact C | intro X; contradiction].
-    - right. exists new. split; [exact L|]. split; [exact C|]. split; [exact F | apply HS, St].
+    intros HI HK HKs HS. destruct (declare_fault_s_spec c t ce0 cond s HI) as [new [L [C D]]]. unfold bind at 1.
+    destruct (declare_fault_s cond s) as [s1 r]. cbn [fst snd] in *.
+    destruct D as [[N [R [added [Q1 Q2]]]]|[F [R [St Ig]]]].
+    - left. destruct r as [[]|e]; [contradiction R; reflexivity|]. exists new, added. cbn [fst snd].
+      split; [split; [exact L | split; [exact Q1 | split; [exact Q2 | exact N]]]|]. split; [exact C | intro X; discriminate X].
+    - subst r. unfold bind at 1, gets at 1. rewrite C.
+      destruct (fault_ignored c cond) eqn:Efi.
+      + destruct (Ig Efi) as [I1 [Q1 [Q2 [S1 [a [b [pr [En [Et Ft]]]]]]]]].
+        destruct (HK s1 I1) as [n2 [a2 [[L2 [Q3 [Q4 N2]]] I2]]].
+        pose proof (minv_state _ _ _ s1 HKs) as S2.
+        right. exists (n2 ++ new). split; [rewrite L2, L; apply app_assoc|]. split; [apply I2|]. split.
+        * subst new. exists FH_IGNORE, a, b, cond, pr, n2, []. split; [reflexivity|]. split; [exact N2|].
+          split; [intro X; contradiction X; reflexivity|]. split; [reflexivity|]. split; [exact Et|].
+          left. split; [exact Ft|]. split; [intro X; discriminate X|]. intros _.
+          exists a2. split; [rewrite Q3, Q1; reflexivity|]. split; [rewrite Q4, Q2; reflexivity | intro X; discriminate X].
+        * apply HS. left. rewrite S2. exact S1.
+      + unfold ret. cbn [fst snd]. right. exists new. split; [exact L|]. split; [exact C|]. split; [exact F | apply HS, St].
   Qed.
 
   Lemma hpap_s_out : forall s, IT s ->
@@ -1116,10 +1151,13 @@ Section SrcCall.
     destruct (q_rcfg (s_p s)) as [r|]; [|apply (mid_quiet _ (raise E_ASSERT)); [apply sg_raise | exact HI]].
     unfold ret at 1. cbv beta iota. unfold bind at 1, snow at 1, gets at 1.
     destruct (negb (timed_out (e_now (s_env s)) tm)); [apply (mid_quiet _ (ret tt)); [apply sg_ret | exact HI]|].
-    unfold bind at 1, gq at 1, gets at 1.
+    unfold bind at 1, gq at 1, gets at 1. cbv zeta.
+    match goal with |- mid_out _ _ ((if _ then _ else ?K) s) =>
+      assert (GK : GT K) by (swalk; auto using gt_checksum_calculation, gt_prepare_eof_pdu);
+      assert (SK : MInv s_step Any K) by minv end.
     destruct (r_ack_limit r <=? q_ack_counter (s_p s) + 1).
-    - apply mid_decl; [exact HI | intros st H; exact H].
-    - apply mid_quiet; [|exact HI]. swalk; auto using gt_checksum_calculation, gt_prepare_eof_pdu.
+    - apply decl_then; [exact HI | exact GK | exact SK | intros st H; exact H].
+    - apply mid_quiet; [exact GK | exact HI].
   Qed.
 
   Lemma hwfa_out : forall pkt s, IT s -> s_step s = SS_WAITING_FOR_EOF_ACK ->
@@ -1155,13 +1193,17 @@ Section SrcCall.
       assert (HP : mid_out (fun st => st = SS_WAITING_FOR_FINISHED \/ st = SS_WAITING_FOR_EOF_ACK \/ st = SS_IDLE) s
                      ((t0 <- gq q_check_timer ;; n <- snow ;;
                        match t0 with
-                       | Some tm => when (timed_out n tm) (declare_fault_s C_CHECK_LIMIT)
+                       | Some tm =>
+                           when (timed_out n tm)
+                             (declare_fault_s C_CHECK_LIMIT ;;;
+                              l <- gets s_cfg ;;
+                              when (fault_ignored l C_CHECK_LIMIT) (setq (fun q => q <| q_check_timer := Some (n, snd tm) |>)))
                        | None => ret tt
                        end) s)).
       { unfold bind at 1, gq at 1, gets at 1. unfold bind at 1, snow at 1, gets at 1.
         destruct (q_check_timer (s_p s)) as [tm|]; [|apply (mid_quiet _ (ret tt)); [apply sg_ret | exact HI]].
-        unfold when. destruct (timed_out (e_now (s_env s)) tm); [|apply (mid_quiet _ (ret tt)); [apply sg_ret | exact HI]].
-        apply mid_decl; [exact HI|]. rewrite Hst. intros st H; exact H. }
+        unfold when at 1. destruct (timed_out (e_now (s_env s)) tm); [|apply (mid_quiet _ (ret tt)); [apply sg_ret | exact HI]].
+        unfold when. apply decl_then; [exact HI | swalk | minv | rewrite Hst; intros st H; exact H]. }
       destruct pkt as [[]|]; try exact HP; (apply mid_quiet; [swalk | exact HI]).
     - left. exists n1, a1. split; [exact E1|]. split; [apply I1 | intro X; discriminate X].
   Qed.
@@ -1379,7 +1421,8 @@ Proof.
   assert (E : fst (match r with Ok _ => ret true s1 | Err e => (s1, Err e) end) = s1) by (destruct r; reflexivity).
   rewrite E. exists new. split; [exact L|].
   destruct N as [[R [a' [b' [c0 [pr [T1 [N1 [N2 [N3 N4]]]]]]]]]|[R [N1 [added [Q1 [Q2 Q3]]]]]].
-  - right. exists FH_ABANDON, a', b', c0, pr, []. split; [exact N1|]. split; [reflexivity|]. split; [exact T1|].
+  - right. exists FH_ABANDON, a', b', c0, pr, [], []. split; [exact N1|]. split; [reflexivity|]. split; [reflexivity|].
+    split; [reflexivity|]. split; [exact T1|].
     right. split; [reflexivity|]. split; [exact N2|]. split; [exact N3 | exact N4].
   - left. split; [exact N1|]. exists added. split; assumption.
 Qed.
@@ -1479,8 +1522,9 @@ Qed.
 Lemma source_fault_events_follow_table : forall (cl : scall) (s : src),
   exists new, log_s (fst (sapply cl s)) = new ++ log_s s /\
     (no_fault new \/
-     exists kind a b cond prog older,
-       new = EvFault kind a b cond prog :: older /\ no_fault older /\
+     exists kind a b cond prog newer older,
+       new = newer ++ EvFault kind a b cond prog :: older /\ no_fault newer /\ (kind <> FH_IGNORE -> newer = []) /\
+       no_fault older /\
        q_tid (s_p s) = Some (a, b) /\
        (get_fault_handler (l_faults (s_cfg s)) cond = Some kind \/
         (kind = FH_ABANDON /\ q_cond_eof (s_p s) = Some cond /\ cond <> C_NO_ERROR))).
@@ -1489,20 +1533,23 @@ Proof.
   assert (Hp : forall s', source_call_post s s' ->
      exists new, log_s s' = new ++ log_s s /\
     (no_fault new \/
-     exists kind a b cond prog older,
-       new = EvFault kind a b cond prog :: older /\ no_fault older /\
+     exists kind a b cond prog newer older,
+       new = newer ++ EvFault kind a b cond prog :: older /\ no_fault newer /\ (kind <> FH_IGNORE -> newer = []) /\
+       no_fault older /\
        q_tid (s_p s) = Some (a, b) /\
        (get_fault_handler (l_faults (s_cfg s)) cond = Some kind \/
         (kind = FH_ABANDON /\ q_cond_eof (s_p s) = Some cond /\ cond <> C_NO_ERROR)))).
   { intros s' [new [L D]]. exists new. split; [exact L|].
-    destruct D as [[N _]|[k [a [b [cond [pr [older [F1 [F2 [F3 F4]]]]]]]]]]; [left; exact N | right].
-    exists k, a, b, cond, pr, older. split; [exact F1|]. split; [exact F2|]. split; [exact F3|].
+    destruct D as [[N _]|[k [a [b [cond [pr [newer [older [F1 [Fn [Fi [F2 [F3 F4]]]]]]]]]]]]]; [left; exact N | right].
+    exists k, a, b, cond, pr, newer, older. split; [exact F1|]. split; [exact Fn|]. split; [exact Fi|].
+    split; [exact F2|]. split; [exact F3|].
     destruct F4 as [[T _]|[T1 [T2 [T3 _]]]]; [left; exact T | right; split; [exact T1 | split; [exact T2 | exact T3]]]. }
   assert (Hq : (match cl with SSm _ | SCancel _ _ => False | _ => True end) ->
      exists new, log_s (fst (sapply cl s)) = new ++ log_s s /\
     (no_fault new \/
-     exists kind a b cond prog older,
-       new = EvFault kind a b cond prog :: older /\ no_fault older /\
+     exists kind a b cond prog newer older,
+       new = newer ++ EvFault kind a b cond prog :: older /\ no_fault newer /\ (kind <> FH_IGNORE -> newer = []) /\
+       no_fault older /\
        q_tid (s_p s) = Some (a, b) /\
        (get_fault_handler (l_faults (s_cfg s)) cond = Some kind \/
         (kind = FH_ABANDON /\ q_cond_eof (s_p s) = Some cond /\ cond <> C_NO_ERROR)))).
@@ -2091,11 +2138,16 @@ Proof.
   { destruct C1 as [[X _]|X]; [left; exact X | right; exact X]. }
   destruct ok.
   - apply nlast; [apply ng_ftct | exact K1|]. intros a s2 N2. destruct W1 as [X|[X _]]; [left; exact X | discriminate X].
-  - mrun. destruct (p_rcfg (d_p s1)) as [r'|]; [|apply k_raise; exact K1].
+  - mrun. destruct (p_rcfg (d_p s1)) as [r'|]; [|apply k_raise; exact K1]. cbv zeta.
     destruct (r_check_limit r' <=? p_check_count (d_p s1) + 1).
-    + apply kbind_df; [exact K1|]. intros fh m2 s2 K2 D2. apply k_ret; [exact K2|].
-      destruct D2 as [_ [_ [_ [[_ [_ D2]]|[_ [D2 [D3 _]]]]]]]; [right; exact D2|].
-      destruct W1 as [X|[_ X]]; [left; congruence | right; congruence].
+    + apply kbind_df; [exact K1|]. intros fh m2 s2 K2 D2.
+      assert (W2 : m2 = m0 \/ d_step s2 = DS_TRANSFER_COMPLETION).
+      { destruct D2 as [_ [_ [_ [[_ [_ D2]]|[_ [D2 [D3 _]]]]]]]; [right; exact D2|].
+        destruct W1 as [X|[_ X]]; [left; congruence | right; congruence]. }
+      (* an ignored Check Limit Reached keeps counting and waits for another interval (F34 repair) *)
+      destruct (fh =? FH_IGNORE); [|apply k_ret; [exact K2 | exact W2]].
+      mrun. destruct (p_check_timer (d_p s2)) as [[t0 tmo]|]; [|apply k_raise; exact K2]. mfin. kok.
+      destruct W2 as [X|X]; [left; exact X | right; exact X].
     + mrun. destruct (p_check_timer (d_p s1)) as [[t0 tmo]|]; [|apply k_raise; exact K1]. mfin. kok.
       destruct W1 as [X|[_ X]]; [left; exact X | right; exact X].
 Qed.
@@ -2623,10 +2675,16 @@ Module Examples.
   Definition ex_s8 k := fst (state_machine_s None (ex_s7 k)).
   Definition ex_snew (s s' : src) : list event := firstn (length (log_s s') - length (log_s s)) (log_s s').
 
+  (* an ignored limit fault lets the positive ACK procedure carry on (F34 repair): the EOF is re-sent after the callback, so
+     the callback is no longer the newest event of the call ("new = EvFault ... :: older", true before the repair, is false) *)
   Example source_ignore_declared :
     s_step (ex_s7 FH_IGNORE) = SS_WAITING_FOR_EOF_ACK /\
-    ex_snew (ex_s7 FH_IGNORE) (ex_s8 FH_IGNORE) = [EvFault FH_IGNORE 1 0 C_POS_ACK_LIMIT 10] /\ s_queue (ex_s8 FH_IGNORE) = [].
-  Proof. vm_compute. repeat split; reflexivity. Qed.
+    ex_snew (ex_s7 FH_IGNORE) (ex_s8 FH_IGNORE) = [EvEofSent 1 0; EvFault FH_IGNORE 1 0 C_POS_ACK_LIMIT 10] /\
+    (exists h ck, s_queue (ex_s8 FH_IGNORE) = [PEof h C_NO_ERROR ck 10 None]) /\
+    q_ack_counter (s_p (ex_s8 FH_IGNORE)) = 1 /\ q_ack_timer (s_p (ex_s8 FH_IGNORE)) = Some (1000, 1000) /\
+    (* the next call, before the next expiry, declares nothing *)
+    ex_snew (fst (drain_s (ex_s8 FH_IGNORE))) (fst (state_machine_s None (fst (drain_s (ex_s8 FH_IGNORE))))) = [].
+  Proof. vm_compute. split; [reflexivity|]. split; [reflexivity|]. split; [eexists _, _; reflexivity|]. repeat split; reflexivity. Qed.
   Example source_cancel_declared :
     ex_snew (ex_s7 FH_CANCEL) (ex_s8 FH_CANCEL) = [EvFault FH_CANCEL 1 0 C_POS_ACK_LIMIT 10; EvEofSent 1 0] /\
     (exists h ck, s_queue (ex_s8 FH_CANCEL) = [PEof h C_POS_ACK_LIMIT ck 10 None]) /\
@@ -2647,6 +2705,119 @@ Module Examples.
   Proof. vm_compute. repeat split; reflexivity. Qed.
 End Examples.
 
+(* ================================================================== the three procedures whose limit fault is IGNOREd,
+   exactly (F34 repair) *)
+Local Opaque checksum_calculation.
+Ltac ft_eqbs := change (FH_IGNORE =? FH_CANCEL) with false; change (FH_IGNORE =? FH_ABANDON) with false;
+  change (FH_IGNORE =? FH_IGNORE) with true; cbv iota.
+(* sender, Positive ACK Limit Reached configured as IGNORE *)
+Lemma source_pos_ack_limit_ignored_continues : forall s r tm a b ce ck,
+  q_ack_timer (s_p s) = Some tm -> q_rcfg (s_p s) = Some r -> timed_out (now_s s) tm = true ->
+  r_ack_limit r <= q_ack_counter (s_p s) + 1 ->
+  get_fault_handler (l_faults (s_cfg s)) C_POS_ACK_LIMIT = Some FH_IGNORE ->
+  q_tid (s_p s) = Some (a, b) -> q_cond_eof (s_p s) = Some ce ->
+  snd (checksum_calculation (q_progress (s_p s)) s) = Ok ck ->
+  exists s', handle_positive_ack_procedures_s s = (s', Ok tt) /\
+    log_s s' = (if l_ind_eof_sent (s_cfg s) then [EvEofSent a b] else []) ++
+               EvFault FH_IGNORE a b C_POS_ACK_LIMIT (q_progress (s_p s)) :: log_s s /\
+    s_queue s' = s_queue s ++ [PEof (hdr_of (q_conf (s_p s)) TOWARDS_RECEIVER) ce ck (q_progress (s_p s)) None] /\
+    s_ready s' = s_ready s + 1 /\
+    s_p s' = (s_p s) <| q_ack_timer := Some (now_s s, snd tm) |> <| q_ack_counter := q_ack_counter (s_p s) + 1 |> /\
+    s_state s' = s_state s /\ s_step s' = s_step s /\
+    (* not declared again before the next expiry *)
+    (0 < snd tm -> handle_positive_ack_procedures_s s' = (s', Ok tt)).
+Proof.
+  intros s r tm a b ce ck Ht Hr Hto Hlim Hf Htid Hce Hck.
+  assert (Hl : (r_ack_limit r <=? q_ack_counter (s_p s) + 1) = true) by (apply Z.leb_le; exact Hlim).
+  destruct s as [cfg st step ready q p sb pt sc sbits env]; destruct env as [nw fs rw lg].
+  destruct p as [tid ckt ackt ackc cex pr sl fsz ef mdo fin rc cl cf].
+  unfold now_s in *. cbn in Ht, Hr, Hto, Hl, Hf, Htid, Hce, Hck. subst tid ackt rc cex.
+  unfold handle_positive_ack_procedures_s. cbn. unfold bind. cbn. rewrite Hto. cbn. rewrite Hl.
+  cbn. unfold bind. cbn. rewrite ?Hf. ft_eqbs. cbn. unfold bind. cbn. unfold fault_ignored. cbn. rewrite ?Hf. ft_eqbs. cbn.
+  match type of Hck with snd (checksum_calculation _ ?s0) = _ =>
+    match goal with |- context [checksum_calculation ?p ?s1] => rewrite (cc_frame p s0 s1) by reflexivity end end.
+  rewrite Hck. cbn. unfold bind. cbn.
+  destruct (l_ind_eof_sent cfg); cbn; unfold bind; cbn;
+  (eexists; split; [reflexivity|]; cbn; repeat (split; [reflexivity|]));
+  intro Hp; assert (Hn : (snd tm <=? nw - nw) = false) by (apply Z.leb_gt; lia);
+  unfold timed_out; cbn; rewrite Hn; reflexivity.
+Qed.
+
+(* the check timer of the sender has not expired: nothing happens *)
+Lemma source_check_limit_waits : forall s tm,
+  q_check_timer (s_p s) = Some tm -> timed_out (now_s s) tm = false -> handle_wait_for_finish None s = (s, Ok tt).
+Proof.
+  intros s tm Ht Hto.
+  destruct s as [cfg st step ready q p sb pt sc sbits env]; destruct env as [nw fs rw lg].
+  destruct p as [tid ckt ackt ackc cex pr sl fsz ef mdo fin rc cl cf].
+  unfold now_s in *. cbn in Ht, Hto. subst ckt.
+  unfold handle_wait_for_finish. cbn. unfold bind. cbn.
+  destruct (st =? ST_IDLE); cbn; [|destruct (sc_mode cf =? ACKED); cbn]; unfold bind; cbn; rewrite Hto; reflexivity.
+Qed.
+
+(* sender, Check Limit Reached (waiting for the Finished PDU) configured as IGNORE: the check timer is restarted *)
+Lemma source_check_limit_ignored_continues : forall s tm a b,
+  q_check_timer (s_p s) = Some tm -> timed_out (now_s s) tm = true ->
+  get_fault_handler (l_faults (s_cfg s)) C_CHECK_LIMIT = Some FH_IGNORE -> q_tid (s_p s) = Some (a, b) ->
+  exists s', handle_wait_for_finish None s = (s', Ok tt) /\
+    log_s s' = EvFault FH_IGNORE a b C_CHECK_LIMIT (q_progress (s_p s)) :: log_s s /\
+    s_p s' = (s_p s) <| q_check_timer := Some (now_s s, snd tm) |> /\
+    s_queue s' = s_queue s /\ s_ready s' = s_ready s /\ s_state s' = s_state s /\ s_step s' = s_step s /\
+    (0 < snd tm -> handle_wait_for_finish None s' = (s', Ok tt)).
+Proof.
+  intros s tm a b Ht Hto Hf Htid.
+  destruct s as [cfg st step ready q p sb pt sc sbits env]; destruct env as [nw fs rw lg].
+  destruct p as [tid ckt ackt ackc cex pr sl fsz ef mdo fin rc cl cf].
+  unfold now_s in *. cbn in Ht, Hto, Hf, Htid. subst tid ckt.
+  assert (Hw : 0 < snd tm -> timed_out nw (nw, snd tm) = false).
+  { intro Hp. unfold timed_out. cbn [fst snd]. apply Z.leb_gt. lia. }
+  unfold handle_wait_for_finish. cbn. unfold bind. cbn.
+  destruct (st =? ST_IDLE); cbn; [|destruct (sc_mode cf =? ACKED); cbn]; unfold bind; cbn; rewrite Hto; cbn; unfold bind; cbn;
+    rewrite ?Hf; ft_eqbs; cbn; unfold bind; cbn; unfold fault_ignored; cbn; rewrite ?Hf; ft_eqbs; cbn;
+    (eexists; split; [reflexivity|]; repeat (split; [reflexivity|]));
+    intro Hp; (eapply source_check_limit_waits; [reflexivity | apply Hw, Hp]).
+Qed.
+
+(* receiver, Check Limit Reached configured as IGNORE: after the callback the check counter is incremented and the check
+   timer restarted, exactly as below the limit *)
+Lemma dest_check_limit_ignored_continues : forall s s1 tm r r' a b t0 tmo,
+  p_check_timer (d_p s) = Some tm -> p_rcfg (d_p s) = Some r -> timed_out (now_d s) tm = true ->
+  checksum_verify s = (s1, Ok false) ->
+  p_rcfg (d_p s1) = Some r' -> r_check_limit r' <= p_check_count (d_p s1) + 1 ->
+  get_fault_handler (l_faults (d_cfg s1)) C_CHECK_LIMIT = Some FH_IGNORE ->
+  p_tid (d_p s1) = Some (a, b) -> p_check_timer (d_p s1) = Some (t0, tmo) ->
+  check_limit_handling s =
+    (s1 <| d_env ::= (fun en => en <| e_log ::= cons (EvFault FH_IGNORE a b C_CHECK_LIMIT (p_progress (d_p s1))) |>) |>
+        <| d_p ::= (fun p => p <| p_check_count ::= (fun c => c + 1) |> <| p_check_timer := Some (now_d s, tmo) |>) |>, Ok tt).
+Proof.
+  intros s s1 tm r r' a b t0 tmo Ht Hr Hto Hcv Hr' Hlim Hf Htid Ht'.
+  assert (Hl : (r_check_limit r' <=? p_check_count (d_p s1) + 1) = true) by (apply Z.leb_le; exact Hlim).
+  unfold check_limit_handling, rcfg_or_assert, gp, now, now_d in *.
+  unfold bind at 1, gets at 1. rewrite Ht. unfold bind at 1. unfold bind at 1, gets at 1. rewrite Hr. unfold ret at 1. cbv beta iota.
+  unfold bind at 1, gets at 1. rewrite Hto. unfold bind at 1. rewrite Hcv. cbv beta iota.
+  unfold bind at 1, gets at 1. unfold bind at 1, gets at 1. rewrite Hr'. cbv zeta. rewrite Hl.
+  unfold bind at 1. unfold declare_fault. unfold bind at 1, gets at 1. unfold bind at 1, gp at 1, gets at 1.
+  unfold bind at 1, gp at 1, gets at 1. rewrite Htid, Hf.
+  change (FH_IGNORE =? FH_CANCEL) with false. change (FH_IGNORE =? FH_ABANDON) with false. cbv iota.
+  unfold bind at 1, ret at 1. unfold bind at 1, emit at 1, modify at 1. unfold ret at 1.
+  change (FH_IGNORE =? FH_IGNORE) with true. cbv iota.
+  unfold bind at 1, gets at 1. cbn [d_p set]. 
+  destruct s1 as [cfg st step stid ready q p env]. cbn in Ht' |- *. rewrite Ht'. reflexivity.
+Qed.
+
+(* the check timer of the receiver has not expired: nothing happens *)
+Lemma dest_check_limit_waits : forall s tm r,
+  p_check_timer (d_p s) = Some tm -> p_rcfg (d_p s) = Some r -> timed_out (now_d s) tm = false ->
+  check_limit_handling s = (s, Ok tt).
+Proof.
+  intros s tm r Ht Hr Hto. unfold check_limit_handling, rcfg_or_assert, gp, now, now_d in *.
+  unfold bind at 1, gets at 1. rewrite Ht. unfold bind at 1. unfold bind at 1, gets at 1. rewrite Hr. unfold ret at 1. cbv beta iota.
+  unfold bind at 1, gets at 1. rewrite Hto. reflexivity.
+Qed.
+
+Print Assumptions source_pos_ack_limit_ignored_continues.
+Print Assumptions source_check_limit_ignored_continues.
+Print Assumptions dest_check_limit_ignored_continues.
 Print Assumptions dest_fault_events_follow_table.
 Print Assumptions dest_abandon_is_final.
 Print Assumptions fault_kinds.
